@@ -4,7 +4,7 @@
 id=$1; n=$2; src=${SEEDROOT:-/tmp/seed}/$id/seed_out
 d=/tmp/ev/confirm_${id}_$n
 rm -rf $d && mkdir -p $d && (cd /repo && git archive HEAD | tar -x -C $d) || exit 2
-mkdir -p $d/seed_out && cp $src/demo$n.py $d/seed_out/
+mkdir -p $d/seed_out && cp $src/*.py $d/seed_out/ 2>/dev/null
 cd $d
 /venv/bin/python seed_out/demo$n.py > $d.demo_clean.log 2>&1; rc_clean=$?
 git init -q . >/dev/null 2>&1
